@@ -3,6 +3,7 @@ mod ctx;
 mod e1;
 mod e1world;
 mod e2;
+mod e2rig;
 mod iso;
 mod props;
 mod runner;
